@@ -33,6 +33,13 @@ def mayFail (c : Case) : Bool := MayRule.all.any (·.applies c)
 theorem mem_made {c : Case} {f : Field} (hf : f ∈ c.fields) (hb : f.bare = false) : f ∈ c.made := by
   simp [Case.made, hf, hb]
 
+theorem secondDefault_cond (f : Field) :
+    (f.deco && decide (defaultSources f ≥ 2)) = (f.deco && (f.dflt || f.factory || f.decoMore != 0)) := by
+  unfold defaultSources
+  cases f.deco <;> cases f.dflt <;> cases f.factory <;> simp
+  all_goals (try omega)
+  cases f.decoMore <;> simp <;> omega
+
 theorem fieldChecks_sound (c : Case) (f : Field) (hf : f ∈ c.fields) :
     ∀ p ∈ fieldChecks f, p.1 = true → ∃ r : Rule, r.applies c = true ∧ r.kind = p.2 := by
   intro p hp h1
@@ -52,7 +59,9 @@ theorem fieldChecks_sound (c : Case) (f : Field) (hf : f ∈ c.fields) :
     · refine ⟨.defaultAndFactory, ?_, rfl⟩
       simp only [Rule.applies, List.any_eq_true]
       exact ⟨f, hm, by simpa [Bool.and_comm] using h1⟩
-    · exact ⟨.secondDefault, by simp only [Rule.applies, List.any_eq_true]; exact ⟨f, hm, h1⟩, rfl⟩
+    · exact ⟨.secondDefault, by
+        simp only [Rule.applies, List.any_eq_true]
+        exact ⟨f, hm, by rw [secondDefault_cond]; exact h1⟩, rfl⟩
   · simp [hb] at hp
 
 theorem fieldRule_complete (c : Case) (P : Field → Bool) (h : c.made.any P = true)
@@ -191,7 +200,8 @@ theorem rule_complete (c : Case) (r : Rule) (h : r.applies c = true) : ∃ p ∈
   case secondDefault =>
     simp only [Rule.applies] at h
     obtain ⟨p, hp, h1⟩ := fieldRule_complete c _ h (fun f hb hP =>
-      ⟨(f.deco && (f.dflt || f.factory), .defaultAlreadySet), by simp [fieldChecks, hb], hP⟩)
+      ⟨(f.deco && (f.dflt || f.factory || f.decoMore != 0), .defaultAlreadySet), by simp [fieldChecks, hb], by
+        rw [← secondDefault_cond]; exact hP⟩)
     exact ⟨p, mem_checks_of_field hp, h1⟩
   case annotationAndType =>
     simp only [Rule.applies] at h
